@@ -236,20 +236,19 @@ def check_row(T, q, k, m, idx, vec, dist):
 
 
 def model_knn(ctx, T, Q, combos):
+    """one request per scene: the driver builds the tree once and answers every (k, bound) of the sweep"""
     c, w = root_box(T)
-    lines = []
-    for k, m in combos:
-        b = '0' if m is None else f'1 {m}'
-        lines.append(f'c16.knn {enc_box(c, w)} {DEPTH} {k} {b} {enc_pts(T)} {enc_pts(Q)}')
+    cs = C.enc_list(combos, lambda km: f'{km[0]} ' + ('0' if km[1] is None else f'1 {km[1]}'))
+    rep = ctx.driver.ask(f'c16.knnsweep {enc_box(c, w)} {DEPTH} {enc_pts(T)} {enc_pts(Q)} {cs}')
+    t = C.Toks(rep)
+    if t.tok() != 'ok':
+        raise RuntimeError('driver: ' + rep[:200])
+    if not t.nat():
+        raise RuntimeError('model: fuel exhausted (contradicts C16_knn_terminates)')
     out = []
-    for (k, m), rep in zip(combos, ctx.driver.ask_many(lines)):
-        t = C.Toks(rep)
-        if t.tok() != 'ok':
-            raise RuntimeError('driver: ' + rep[:200])
-        emptied = t.nat()
-        nq = t.nat()
+    for k, m in combos:
         rows = []
-        for _ in range(nq):
+        for _ in range(len(Q)):
             row = []
             for _ in range(k):
                 i = int(t.tok())
@@ -259,10 +258,8 @@ def model_knn(ctx, T, Q, combos):
                     dd = t.rat()
                     row.append((i, dd, [t.rat(), t.rat(), t.rat()]))
             rows.append(row)
-        assert t.done()
-        if not emptied:
-            raise RuntimeError('model: fuel exhausted (contradicts C16_knn_terminates)')
         out.append(rows)
+    assert t.done()
     return out
 
 
@@ -554,21 +551,15 @@ def hop_case(ctx, m, r2, mode):
 
 
 def hop_docstring_example(ctx):
-    """separately labelled stream (never reported through `fail`): the hand-made three-tet mesh of
-    findings/C16-hop-elemental-docstring.md, on which the elemental kernel is stricter than the docstring's chain"""
+    """the hand-made three-tet mesh of findings/C16-hop-elemental-docstring.md (elemental kernel stricter than the
+    docstring's chain of elements, and not symmetric).  Generated bricks show the same in 3-5 % of the (mesh, r) cases, so
+    the example is evaluated on every run to make the verdict independent of the seed."""
     nodes = [(i + 1, tuple(F(v) for v in p)) for i, p in enumerate(
         [[0, 0, 0], [1, 0, 0], [0, 1, 0], [0, 0, 1], [10, 0, 0], [10, 1, 0], [2, 0, 0], [2, 1, 0], [2, 0, 1]])]
-    m = {'kind': 'tet', 'order': 'asc', 'nodes': nodes, 'blocks': {'tet': [(1, [1, 2, 3, 4]), (2, [2, 5, 6, 3]), (3, [5, 7, 8, 9])]}}
-    real, fd = hop_real(m, 1.5, 'elemental')
-    pos, els = hop_indexed(m, fd)
-    doc = hop_oracle_elemental(pos, els, 2, False)
-    coded = hop_oracle_elemental(pos, els, 2, True)
-    label = ('kernel=docstring' if real == doc else 'kernel=shared-node-inside-ball(stricter than docstring)' if real == coded
-             else 'kernel=neither')
-    ctx.count('hop:elemental:hand-made-example:' + label)
-    if real != doc:
-        ctx.notes.append('elemental hop graph on the hand-made 3-tet mesh: kernel ' + str(sorted(real)) + ', docstring definition '
-                         + str(sorted(doc)) + ' (see findings/C16-hop-elemental-docstring.md; classification pending)')
+    m = {'kind': 'tet', 'order': 'asc', 'id_style': 'dense', 'nodes': nodes,
+         'blocks': {'tet': [(1, [1, 2, 3, 4]), (2, [2, 5, 6, 3]), (3, [5, 7, 8, 9])]}}
+    hop_case(ctx, m, 2, 'elemental')
+    hop_case(ctx, m, 2, 'nodal')
 
 
 # ---------------------------------------------------------------- entry points
